@@ -49,6 +49,8 @@ def cases(tier, rng):
         flw = nets.random_d8_raster(rng, nr, nc, p_nodata=rng.choice([0, 0.1]))
         if nets.pits(nets.d8_decode(flw, nr, nc)):
             yield {"k": 1100, "args": [[t]], "call": {"api": "geo", "nr": nr, "nc": nc, "flw": flw, "seed": rng.randrange(10**9), "ml": None}, "group": "geographic-m"}
+            if t == 0:
+                yield {"k": 1100, "args": [[200000]], "call": {"api": "geo", "startdtype": True, "nr": 1, "nc": 300, "flw": [], "seed": 1, "ml": None}, "group": "start-array-dtype"}
             if t % 2 == 0:
                 # NEXTXY networks whose links skip cells, on projected grids: a step is as long as the distance between the two
                 # cell centres (round-6 seed: far links measured as one cell)
@@ -89,6 +91,23 @@ def _geo(call):
     from pyflwdir import gis_utils as g
     rng = random.Random(call["seed"])
     nr, nc = call["nr"], call["nc"]
+    if call.get("startdtype"):
+        # the element type of the start-cell array must not matter (defect fixed after 0dcb6da: snap stored the end cell in an
+        # array of the START array's type, so uint8 / int8 starts wrapped or overflowed beyond cell 255 / 127)
+        ncols = 300
+        codes = np.full((1, ncols), 1, dtype=np.uint8); codes[0, -1] = 0
+        flwl = pyflwdir.from_array(codes, ftype="d8")
+        bad = []
+        for dt in (np.uint8, np.int8, np.uint16, np.int16, np.int64):
+            for start in (5, 100):
+                try:
+                    p_, _ = flwl.path(idxs=np.array([start], dtype=dt))
+                    s_, d_ = flwl.snap(idxs=np.array([start], dtype=dt))
+                    if int(p_[0][-1]) != ncols - 1 or int(s_[0]) != ncols - 1 or float(d_[0]) != ncols - 1 - start:
+                        bad.append(f"start cells of type {np.dtype(dt).name}: path ends in {int(p_[0][-1])}, snap gives {int(s_[0])} after {float(d_[0])}, expected {ncols - 1}")
+                except Exception as e:       # noqa
+                    bad.append(f"start cells of type {np.dtype(dt).name}: {type(e).__name__}: {str(e)[:80]}")
+        return [[0]] if not bad else [[1], bad[:3]]
     if call.get("far"):
         import math
         n = nr * nc
